@@ -73,6 +73,8 @@ type FuncContract struct {
 	NoInline  bool
 	Trusted   bool // body not verified (assumed contract); listed in evidence
 	Strict    bool // slice expressions in the body must stay within len (not cap)
+	LockState bool // track the lock typestate (held/not held) in this function although the package's locks are not modelled
+	PartialKinds []string // obligation kinds kept by a partial contract besides assertions, covers and invariants
 	Partial   bool // only the listed assertions (and covers) are obligations: the function is not otherwise verified
 	Modifies  []string
 	HasMod    bool
@@ -99,7 +101,7 @@ type ContractFile struct {
 	Lemmas  []*Lemma
 }
 
-var kwRe = regexp.MustCompile(`^(import|option|spec|end|func|extern|props|requires|ensures|assumes|old|inline|noinline|trusted|strict|partial|pure|modifies|loop|invariant|decreases|assert|lossless|atomic-step|lemma|axiom|iface)\b`)
+var kwRe = regexp.MustCompile(`^(import|option|spec|end|func|extern|props|requires|ensures|assumes|old|inline|noinline|trusted|strict|partial|locktypestate|pure|modifies|loop|invariant|decreases|assert|lossless|atomic-step|lemma|axiom|iface)\b`)
 var tagRe = regexp.MustCompile(`^\[([A-Za-z0-9_, ]+)\]\s*`)
 var labelRe = regexp.MustCompile(`^([a-zA-Z_][a-zA-Z0-9_]*):\s+`)
 
@@ -253,6 +255,9 @@ func ParseContractFile(path, source string) (*ContractFile, error) {
 				cur.Strict = true
 			case "partial":
 				cur.Partial = true
+				cur.PartialKinds = strings.Fields(stripTrail(d.rest))
+			case "locktypestate":
+				cur.LockState = true
 			case "pure":
 				cur.HasMod = true
 				cur.Modifies = nil
